@@ -18,12 +18,15 @@ from common import (CACHE, ToolError, build_harness, load_known, log, repo_state
                     write_evidence)
 
 PROP_GROUPS = {
-    "C01": ["store"], "C02": ["conc"], "C03": ["conc"], "C05": ["store"], "C06": ["store", "conc"],
-    "C07": ["store"], "C08": ["store"], "C09": ["store", "conc"], "C11": ["conc"], "C12": ["store"],
-    "C20": ["store"],
+    "C01": ["store"], "C02": ["conc"], "C03": ["conc"], "C05": ["store"], "C06": ["store", "conc", "http"],
+    "C07": ["store"], "C08": ["store"], "C09": ["store", "conc"], "C11": ["conc"], "C12": ["store", "http"],
+    "C13": ["http"], "C20": ["store", "http"],
 }
 
 ASSUME = {
+    "http": ["requests are raw HTTP/1.1 over the unix socket, one connection per request (Connection: close)",
+             "topics sent in the request line are URL-safe ASCII; NUL topics reach the server only through POST /import",
+             "a rejected append may leave an orphan CAS object; 'changes nothing' means frames, indexes and registry"],
     "conc": ["TLC's verdict on XsConcurrent holds for the constants of the MC_conc_*.cfg files (2 writers, <= 3 frames each, B, M <= 3)",
              "schedules are explored at the granularity of the xs_verif gates; fjall and tokio internals are not gated",
              "the observer uses only the order of events that are really ordered (returned-before-called, delivery order)"],
